@@ -64,6 +64,7 @@ def run(R):
     with R.clause('D1', 'FLOW', floor=20, desc='send(): coerce -> log -> encode -> exactly one write; returns the byte count') as c:
         for f in sends:
             check_pipeline(c, f)
+        check_count_units(c, repo)
     with R.clause('D2', 'ONCE', floor=12, desc='sendline adds linesep exactly once; write/writelines delegate once per item') as c:
         for cn in SPAWN_CLASSES:
             cl = repo.cls(cn)
@@ -76,7 +77,8 @@ def run(R):
     with R.clause('D6', 'PAIR', floor=2, desc='socket: the temporary read timeout never leaks into sendall (restored on every exit of the read)') as c:
         from .c05 import check_socket_timeout
         check_socket_timeout(c, repo, restore='leak')
-    with R.clause('D5', 'CONST', floor=2, desc='text in bytes mode is UTF-8 encoded, bytes pass unchanged') as c:
+    with R.clause('D5', 'CONST', floor=4, desc='text in bytes mode is UTF-8 encoded, bytes pass unchanged; unicode mode: one incremental encoder per object') as c:
+        check_encoder_kind(c, repo)
         f = repo.func('spawnbase:SpawnBase._coerce_send_string')
         encs = [k for k in calls_in(f.node) if callee_last(k) == 'encode']
         ok = len(encs) == 1 and len(encs[0].args) == 1 and is_const(encs[0].args[0], 'utf-8') and is_name(encs[0].func.value, f.params[1])
@@ -88,6 +90,105 @@ def run(R):
         okp = len(plain) >= 1 and len(rets) == len(plain) + 1 and not raises(f) and got == mode_mismatch_conditions(f.params[1], True)
         c.check(okp, f, encs[0] if encs else None, 'only non-bytes given to a bytes-mode object are converted; everything else is returned unchanged',
                 witness='converted under %s' % sorted(got or []), kind='path', tag='coerce-guard')
+
+
+def check_count_units(c, repo):
+    """send() / os.write() return a number of BYTES.  In unicode mode the text handed to send() is measured in characters: a byte count
+    compared with len(<text>) or used to slice <text> (the "send the rest after a short write" loop) skips or repeats characters as soon
+    as the text is not ASCII.  Only the encoded bytes may be sliced by such a count."""
+    for cn in SPAWN_CLASSES:
+        cl = repo.cls(cn)
+        found = []
+        n_fn = 0
+        for f in cl.methods.values():
+            n_fn += 1
+            counts, texts, encoded = set(), set(), set()
+            if f.name in ('send', 'sendline', 'write', 'writelines', '_send_all') or True:
+                pass
+            for _ in range(4):
+                for st in iter_nodes(f.node):
+                    if isinstance(st, ast.Assign):
+                        v = st.value
+                        names = [t.id for t in st.targets if isinstance(t, ast.Name)]
+                        if isinstance(v, ast.Call):
+                            last = callee_last(v)
+                            d = dotted(v.func) or ''
+                            if (last == 'send' and isinstance(v.func, ast.Attribute)) or d == 'os.write' or (last in ('write', '_writeb') and d.endswith('ptyproc.' + last)):
+                                counts.update(names)
+                            elif last == '_coerce_send_string':
+                                texts.update(names)
+                            elif last == 'encode' and isinstance(v.func, ast.Attribute):
+                                encoded.update(names)
+                        if isinstance(v, ast.Name) and v.id in counts:
+                            counts.update(names)
+                        if isinstance(v, ast.Subscript) and isinstance(v.value, ast.Name) and v.value.id in texts:
+                            texts.update(names)
+                        if isinstance(v, ast.BinOp) and any(isinstance(x, ast.Name) and x.id in texts for x in ast.walk(v)):
+                            texts.update(n_ for n_ in names if n_ not in counts)
+                        if isinstance(v, ast.BinOp) and any(isinstance(x, ast.Name) and x.id in counts for x in ast.walk(v)) \
+                                and not any(isinstance(x, ast.Name) and x.id in texts for x in ast.walk(v)):
+                            counts.update(names)
+                    elif isinstance(st, ast.AugAssign) and isinstance(st.target, ast.Name) and any(isinstance(x, ast.Name) and x.id in counts for x in ast.walk(st.value)):
+                        counts.add(st.target.id)
+            if f.name in ('send', 'sendline', 'write') and len(f.params) > 1:
+                texts.add(f.params[1])
+            texts -= encoded
+            if not counts or not texts:
+                continue
+            for n in iter_nodes(f.node):
+                if isinstance(n, ast.Subscript) and isinstance(n.value, ast.Name) and n.value.id in texts \
+                        and any(isinstance(x, ast.Name) and x.id in counts for x in ast.walk(n.slice)):
+                    found.append((f, n, 'the text %s is sliced by the byte count %s' % (n.value.id, norm(n.slice))))
+                if isinstance(n, ast.Compare) and len(n.ops) == 1:
+                    sides = [n.left, n.comparators[0]]
+                    lens = [x for x in sides if isinstance(x, ast.Call) and dotted(x.func) == 'len' and x.args and isinstance(x.args[0], ast.Name) and x.args[0].id in texts]
+                    cnts = [x for x in sides if isinstance(x, ast.Name) and x.id in counts]
+                    if lens and cnts:
+                        found.append((f, n, 'the byte count %s is compared with the length in characters %s' % (cnts[0].id, norm(lens[0]))))
+        if found:
+            for f, n, what in found:
+                c.bad(f, n, 'a number of bytes written is applied to text that is not yet encoded (%s): with non-ASCII text in unicode mode characters are skipped or sent twice' % what,
+                      witness=norm(n), kind='flow', tag='count-units:' + f.name)
+        else:
+            c.ok(cl.methods.get('send') or list(cl.methods.values())[0], None, 'no byte count returned by a write is applied to un-encoded text in %s (%d methods read)' % (cn, n_fn),
+                 kind='flow', tag='count-units:' + cn)
+
+
+def check_encoder_kind(c, repo):
+    """Unicode mode: the bytes of successive sends are the encoding of their concatenation only if ONE incremental encoder per spawn object
+    does the encoding -- a stateful codec (utf-16, utf-8-sig, iso2022) emits its start-of-stream bytes once, a one-shot `str.encode` per
+    call emits them on every send."""
+    from .c07 import coder_freshness
+    init = repo.func('spawnbase:SpawnBase.__init__')
+    sites = []
+    for n in iter_nodes(init.node):
+        if isinstance(n, ast.Assign):
+            for t in n.targets:
+                tg = [t] if not isinstance(t, (ast.Tuple, ast.List)) else t.elts
+                for i_, x in enumerate(tg):
+                    if isinstance(x, ast.Attribute) and x.attr == '_encoder':
+                        sites.append((n, i_ if isinstance(t, (ast.Tuple, ast.List)) else None))
+    c.need(len(sites) >= 2, 'SpawnBase.__init__: the two assignments of _encoder (bytes mode / unicode mode) not found')
+    for n, idx in sites:
+        kind, info = coder_freshness(repo, init, n.value, 'encoder', idx)
+        if kind == 'fresh':
+            c.ok(init, n, 'the encoder is one incremental encoder (or the pass-through coder of bytes mode) per spawn object', kind='flow', tag='encoder:' + norm(n.value)[:40])
+        elif kind == 'shared':
+            c.bad(init, n, 'the encoder object is shared between spawn objects (%s): the start-of-stream bytes of a stateful codec reach only the first peer' % info,
+                  kind='flow', tag='encoder:' + norm(n.value)[:40])
+        else:
+            v = n.value if idx is None or not isinstance(n.value, ast.Tuple) else n.value.elts[idx]
+            cn = callee_last(v) if isinstance(v, ast.Call) else None
+            cl = repo.classes.get(cn) if cn else None
+            enc = cl.methods.get('encode') if cl is not None else None
+            oneshot = enc is not None and [k for k in calls_in(enc.node) if (callee_last(k) == 'encode' and isinstance(k.func, ast.Attribute) and
+                                                                              isinstance(k.func.value, ast.Name) and k.func.value.id in enc.params)
+                                           or dotted(k.func) == 'codecs.encode']
+            if oneshot:
+                c.bad(enc, oneshot[0], 'every send is encoded on its own (%s): a stateful codec then emits its start-of-stream bytes (BOM) on every send, '
+                      'the peer does not receive the encoding of the concatenated arguments' % norm(oneshot[0]), kind='flow', tag='encoder:' + norm(n.value)[:40])
+            else:
+                raise AnalysisError('cannot determine what kind of object _encoder is: %s' % info)
 
 
 def check_pipeline(c, f, line=False):
@@ -169,6 +270,16 @@ def check_sendline(c, repo, cl):
         check_pipeline(c, f, line=True)
         return
     c.need(sends, '%s: no self.send call' % f.qual)
+    # what is sent must be written in the call (`self.send(s + self.linesep)`) or be a local bound once; a local that is re-bound between
+    # sends (the remainder of a "send the rest after a short write" loop) is beyond this rule -- whether such a loop sends each character
+    # exactly once is decided, as far as it can be, by the byte-count rule of D1
+    nbind = {}
+    for st in iter_nodes(f.node):
+        if isinstance(st, (ast.Assign, ast.AugAssign)):
+            for t_ in assigned_names(st):
+                nbind[t_] = nbind.get(t_, 0) + 1
+    rebound = sorted(set(x.id for n_, k in sends for a_ in k.args for x in ast.walk(a_) if isinstance(x, ast.Name) and nbind.get(x.id, 0) > 1 and x.id != p))
+    c.need(not rebound, '%s: what is sent is held in a local that is bound several times (%s): how often the text and the separator reach the peer cannot be decided' % (f.qual, rebound))
 
     def mentions(e, what):
         return any(norm(x) == what for x in ast.walk(e))
